@@ -30,22 +30,26 @@ def run(ctx):
                                 f"SPECIFICATION Spec\nCONSTANT MaxN = {maxn}\nINVARIANT Emit\nCHECK_DEADLOCK FALSE\n", timeout_s=1800)
         ctx.rng.shuffle(cases)
     casep = ctx.write_ndjson("cases.ndjson", cases)
-    ov = ctx.overlay(main_files=["c18_test.go"])
+    ov = ctx.overlay(main_files=["helpers_test.go", "arch_test.go", "c10_test.go", "c18_test.go"])
     b = ctx.go_build(".", ov, name="main_c18")
     obs = ctx.go_run(b, "^TestVerifC18$", cases=casep, timeout_s=3000)
     if len(obs) != len(cases):
         raise Inconclusive(f"replayer returned {len(obs)} observations for {len(cases)} cases")
+    if not ctx.replay:
+        # free-running calls with simultaneous completions, and the real per-epoch search with failing sig-exists indexes
+        obs += ctx.go_run(b, "^TestVerifC18Stress$", out="obs_stress.ndjson", timeout_s=3000)
+        obs += ctx.go_run(b, "^TestVerifC18Search$", out="obs_search.ndjson", timeout_s=3000)
     rejected = ctx.r4_judge(["FirstSuccessAbs", "Trace_FirstSuccess"], "Trace_FirstSuccess", obs)
     for o in obs:
         mixed = len(set(o["outcome"])) > 1 and o["n"] >= 2
         ctx.count(sha([o["via"], o["n"], o["limit"], o["outcome"], o["order"]]), mixed)
-        if o["notStarted"] or (o["kind"] == "ok" and o["expect"] != o["val"]):
+        if o["notStarted"] or (o["kind"] == "ok" and not o["via"].startswith(("stress", "find")) and o["expect"] != o["val"]):
             ctx.drift += 1
     for i in rejected:
         o = obs[i]
-        sig = {"op": o["via"], "kind": o["kind"], "n": o["n"], "limit": o["limit"]}
+        sig = {"op": o["via"], "kind": o["kind"], "n": o["n"] if not o["via"].startswith("stress") else 0, "limit": o["limit"] if not o["via"].startswith("stress") else 0}
         ctx.violation(sig, f"{o['via']}(n={o['n']}, limit={o['limit']}, outcomes={o['outcome']}, completion order={o['order']}) "
-                           f"returned kind={o['kind']} val={o['val']} errjobs={o['errjobs']} {o['detail']}", case=cases[o["case"] - 1], obs=o)
+                           f"returned kind={o['kind']} val={o['val']} errjobs={o['errjobs']} {o['detail']}", case=cases[o["case"] - 1] if o["via"] in ("FirstSuccess", "JobGroup") else None, obs=o)
     ctx.samples += cases[:3]
     ctx.assumptions.append("the request context stays live (the property's proviso); jobs are gated closures, one per modelled worker")
     return ctx.finish("model_checking", "distinct = (entry point, n, limit, outcome vector, completion order); non-trivial = >= 2 jobs with mixed outcomes",
